@@ -1,6 +1,8 @@
 package checks
 
 import (
+	"github.com/transparency-dev/witness/verifmc/ref6962"
+	"strconv"
 	"bytes"
 	"encoding/base64"
 	"encoding/json"
@@ -424,6 +426,7 @@ func c06(tier string) int {
 	// (every single SQL-driver / interface fault in the C07 histories; an
 	// acknowledged update must be what the table holds).
 	runFaults(run, "C06", tier, false)
+	c06HugeSizes(run)
 	return run.Finish()
 }
 
@@ -450,4 +453,76 @@ func c06Replay(m map[string]any) int {
 	}
 	fmt.Println("not reproduced")
 	return 0
+}
+
+// c06HugeSizes: acknowledged => durable also at the numeric boundaries of the
+// tree size (a log can sign any uint64 size): on a file-backed SQLite store,
+// first use at sizes around 2^31, 2^32, 2^63 and 2^64, honest growth across
+// each boundary (uniform tree, exact RFC 6962 proofs) and a refresh; after
+// every acknowledged update the store is closed and re-opened by a fresh
+// witness, which must hold exactly what was acknowledged.
+func c06HugeSizes(run *ev.Run) {
+	u := uni.New(ev.Seed(), 2, nil)
+	la := wh.LogCfg{Origin: logA() + "/huge", Key: u.K1}
+	fam := ref6962.NewUniform([]byte("uniform-leaf-durable"))
+	cp := func(n uint64) ([]byte, wh.Meta) {
+		r := fam.Root(n)
+		text := uni.Body(la.Origin, n, r[:])
+		return u.Sign(text, la.Key.Signer), wh.Meta{Origin: la.Origin, KeyName: wh.KeyID(la.Key.Verif), Size: n, Root: r[:], Text: text}
+	}
+	steps := [][2]uint64{{1, 1<<31 - 1}, {1<<31 - 1, 1 << 31}, {1 << 31, 1<<32 + 1}, {1, 1<<63 - 1}, {1<<63 - 1, 1 << 63}, {1, 1 << 63}, {1 << 63, 1<<63 + 7}, {5, ^uint64(0)}, {1<<63 + 7, ^uint64(0)}}
+	var n int64
+	for i, st := range steps {
+		db := filepath.Join(c06Scratch(), fmt.Sprintf("huge-%d.db", i))
+		_ = os.Remove(db)
+		open := func() *wh.Env { return wh.NewEnv(u, wh.Config{Store: "file:" + db, Logs: []wh.LogCfg{la}}) }
+		e := open()
+		c0, m0 := cp(st[0])
+		if out := e.Do(wh.Req{LogID: la.ID(), CP: c0, Meta: m0}); out.Class != wh.OK {
+			ev.Internal("C06 huge sizes: first use at %d refused: %v", st[0], out.Err)
+		}
+		acked := string(e.Stored(la.ID()))
+		for _, to := range []uint64{st[1], st[1]} { // growth, then a refresh at the new size
+			from := st[0]
+			if to == st[1] && acked != "" {
+				if s, ok := uniSize(acked); ok {
+					from = s
+				}
+			}
+			c1, m1 := cp(to)
+			var pr [][]byte
+			if from < to {
+				pr = ref6962.Bytes(fam.Proof(from, to))
+			}
+			out := e.Do(wh.Req{LogID: la.ID(), Old: from, CP: c1, Proof: pr, Meta: m1})
+			n++
+			rep := map[string]any{"kind": "huge-durable", "from": fmt.Sprint(from), "to": fmt.Sprint(to)}
+			if out.Class == wh.OK {
+				acked = string(out.Bytes)
+			} else {
+				run.Report(fmt.Sprintf("honest-step-refused-at-boundary from-class=%s to-class=%s", c19SizeClass(from), c19SizeClass(to)), fmt.Sprintf("file-backed SQL store: honest step %d -> %d with an exact proof was refused: %v", from, to, out.Err), rep)
+			}
+			e.Close()
+			e = open()
+			if got := string(e.Stored(la.ID())); got != acked {
+				gs, _ := uniSize(got)
+				run.Report(fmt.Sprintf("acknowledged-but-not-durable from-class=%s to-class=%s", c19SizeClass(from), c19SizeClass(to)), fmt.Sprintf("file-backed SQL store: the update %d -> %d was acknowledged, but after closing and re-opening the store it holds size %d, not what was acknowledged", from, to, gs), rep)
+				acked = got
+			}
+		}
+		e.Close()
+		_ = os.Remove(db)
+	}
+	run.Set("huge_size_updates_reopened", n)
+	run.Add("evaluations", n)
+}
+
+// uniSize extracts the size line of a checkpoint.
+func uniSize(cp string) (uint64, bool) {
+	l := strings.SplitN(cp, "\n", 3)
+	if len(l) < 2 {
+		return 0, false
+	}
+	v, err := strconv.ParseUint(l[1], 10, 64)
+	return v, err == nil
 }
